@@ -377,8 +377,16 @@ func (r *Resolver) Resolve(ctx context.Context, name string) (ResolveResult, err
 			return result, err
 		}
 		if len(https) > 0 {
-			// Alias Mode: Priority = 0
+			// Alias Mode: Priority = 0. If the RRset holds a record in
+			// AliasMode, the ServiceMode records of the set are ignored
+			// (RFC 9460 2.4.1), wherever it is in the set.
 			v := https[0].(dns.HTTPS)
+			for _, x := range https {
+				if x.(dns.HTTPS).Priority == 0 {
+					v = x.(dns.HTTPS)
+					break
+				}
+			}
 			if v.Priority == 0 && len(v.Target) == 0 {
 				result.HTTPS = nil
 				break
